@@ -24,6 +24,9 @@ SPECS = {
     "H3mask": dict(sizes=(3,), E=(0, 1, 3), k=1, hermitian=True,
                    mask={0: [[0, 1, 0], [1, 0, 0], [0, 0, 0]]}),
     "H21mask": dict(sizes=(2, 1), E=(0, 1, 3), k=1, hermitian=True, mask={0: [[0, 1], [1, 0]]}),
+    # ill-posed: blocks 0 and 2 share an unperturbed level; every request must behave as on a fresh computation
+    "H111shared": dict(sizes=(1, 1, 1), E=(1, 5, 1), k=1, hermitian=True),
+    "N111shared": dict(sizes=(1, 1, 1), E=(1, 5, 1), k=1, hermitian=False),
     "N22": dict(sizes=(2, 2), E=(0, 1, 3, 7), k=1, hermitian=False),
     "N21fd": dict(sizes=(2, 1), E=(0, 1, 3), k=1, hermitian=False, fd=(0,)),
     "H22k2": dict(sizes=(2, 2), E=(0, 1, 3, 7), k=2, hermitian=True),
